@@ -54,10 +54,11 @@ add("C04", "model_checking",
     "after every exit the bookkeeping is compared with the snapshot taken before the matching "
     "enter; every history is finally closed and stack/transformations/registrations/flag/tags and "
     "every object's stored array are compared with the original representation.",
-    "3x3 real symmetric context operators; protection only in the bracketed form (protect, "
-    "contexts, unprotect at the same depth; a protected operator's own context is entered only at "
-    "the depth where it was protected); StateVector objects are not in the alphabet; histories "
-    "beyond the completed depth are not explored (depth and caps reported in the evidence).",
+    "3x3 context operators (real symmetric, one complex Hermitian); bracketed protection in the "
+    "main sections, freeze-by-protect in its own sections (a protected operator's own context is "
+    "entered only in the basis it was protected in); StateVector objects are not in the alphabet; "
+    "histories beyond the completed depth are not explored (depth and caps reported in the "
+    "evidence).",
     "DESIGN.md §3 C04")
 add("C05", "model_checking",
     "exhaustive unit-pair x accessor product against an independent table; explicit-state search "
@@ -141,8 +142,8 @@ add("C03", "model_checking",
     "bookkeeping (Nb, elsigs, which_band), relabelling invariance of spectrum and cluster-summed "
     "dipole strengths, unit independence; point-dipole couplings for all ordered lattice point "
     "pairs x all dipole pairs x eps_r x three APIs against the SI formula (1e-6).",
-    "Two-level molecules with zero ground-state energy, no vibrational modes; sizes above the "
-    "bound and parameter values between alphabet points not explored.",
+    "No vibrational modes (C10 owns them); sizes above the bound and parameter values between "
+    "alphabet points not explored.",
     "DESIGN.md §3 C03")
 add("C14", "model_checking",
     "exhaustive enumeration of system x condition x temperature x request-context grid against "
@@ -173,9 +174,10 @@ add("C06", "model_checking",
     "(quadrature-limited tolerances derived per axis: 0.02+0.45 w dt etc., worst observed <= 0.17 of "
     "the tolerance, smallest mutant effect >= 5x), Foerster column sums and detailed balance w.r.t. "
     "relaxed site energies, spectral density odd in frequency, C(-w) = exp(-w/kT) C(w).",
-    "Overdamped Brownian baths only; <= 4 sites; 77-300 K; transition frequencies below the "
-    "library's 3000 1/cm cut-off; tensor-level and TD uphill detailed balance are not claimed by "
-    "the property; defects smaller than the stated quadrature tolerance are invisible.",
+    "System section: overdamped Brownian baths; <= 4 sites; 77-300 K; transition frequencies "
+    "below the library's 3000 1/cm cut-off; tensor-level and TD uphill detailed balance are not "
+    "claimed by the property; rate matrices constructed INSIDE a basis context are outside the "
+    "alphabet (DESIGN 7.5); defects smaller than the stated quadrature tolerance are invisible.",
     "DESIGN.md §3 C06")
 add("C10", "model_checking",
     "exhaustive enumeration of Huang-Rhys factor x level-count x mode-count x molecule-count grid "
@@ -217,7 +219,9 @@ add("C02", "model_checking",
     "generator within 2x the a-priori bound n*sup||T^k||*sup||E^k||*||T-E||, conservation of norm/"
     "purity/energy, state-vector vs density-matrix, RWA converted back vs lab frame.",
     "||H||dt <= 0.5; dim <= 4; field-driven propagation not exercised; for Redfield generators "
-    "only trace and Hermiticity are claimed by the statement.",
+    "only trace and Hermiticity are claimed by the statement. KNOWN FINDING (printed, exit 0): on "
+    "time axes that do not start at zero the RWA frame is anchored at absolute time zero "
+    "(rwa/*/nonzero-axis-start/frame-anchored-at-absolute-time-zero).",
     "DESIGN.md §3 C02")
 add("C07", "model_checking",
     "exhaustive enumeration of tensor configurations with linearity closure (all matrix units, "
@@ -244,8 +248,7 @@ add("C08", "model_checking",
     "direct propagation (rounding level when dense steps match, computed truncation bound "
     "otherwise), jit vs all, dense N vs 2N, absolute comparison with the Taylor polynomial and "
     "expm of an independent Liouvillian, all calling forms of apply()/at(t).",
-    "dim <= 4, Nt <= 9; time axes starting at 0; at() without a time is not an observation the "
-    "property speaks about.",
+    "dim <= 4, Nt <= 9; at() without a time is not an observation the property speaks about.",
     "DESIGN.md §3 C08")
 add("C11", "model_checking",
     "exhaustive enumeration of system x geometry grid with all relabellings, cube rotations and "
@@ -258,7 +261,8 @@ add("C11", "model_checking",
     "(5e-3), inputs unchanged and second call identical. The known two-point displacement is "
     "recognised ONLY when the data equal the reference on the grid hfft really samples, displaced "
     "by exactly +2 (1e-10); any other disagreement is reported as fourier/mismatch.",
-    "KNOWN FINDING: every spectrum is displaced by two grid points (see known_findings.json). "
+    "KNOWN FINDING (printed, exit 0): every spectrum is displaced by two grid points "
+    "(fourier/axis-shift=+2/hfft-length in known_findings.json). "
     "N <= 3, overdamped baths; behaviour when calculate() raises is not part of the property "
     "(no fault quantifier) and is not reported.",
     "DESIGN.md §3 C11")
@@ -302,3 +306,80 @@ add("C01", "model_checking",
     "Option combinations the package cannot build (constructor raises) are counted and excluded "
     "(whitelist in the driver); <= 4 sites; one time-axis length.",
     "DESIGN.md §3 C01")
+
+
+# ---------------------------------------------------------------------------------------------
+# Dimensions added after the first version of each driver (five waves of independently written
+# property-breaking changes, DESIGN.md 7.6/7.7): appended to the text above by gen_manifest.py.
+# ---------------------------------------------------------------------------------------------
+EXTRA = {
+    "C01": "recomputation on the same object; bare systems; ordered pairs of requests on one system "
+           "with recalculate in {True, False}; operator-form apply() on a complete basis of states.",
+    "C02": "state-vector routes; full form x dephasing x RWA product; construction inside units "
+           "contexts; basis context of the call; conversion directions; one propagator reused after "
+           "set_rwa / after its pure dephasing is changed; complex Hermitian Hamiltonians.",
+    "C03": "dipole strengths read first inside a context; container/dtype of inputs (list, tuple, int "
+           "and float arrays, caller mutating its array afterwards); multi-level molecules and "
+           "non-zero ground-state energies; rebuild/clean histories; lifetimes and parameter sets.",
+    "C04": "time-dependent (5-index) superoperators and apply/at with every time argument; Hamiltonian "
+           "with remainder coupling; complex Hermitian context operator with real-dtype storage; "
+           "objects whose access raises; LindbladForms sharing one system-bath interaction; in-place "
+           "operator sums; one eigenbasis_of object re-entered; Redfield tensors TD/TI x tensor/"
+           "converted x first read; freeze-by-protect histories (protect inside, leave, unprotect at "
+           "another depth); sibling inner contexts; the state key also hashes every attribute of "
+           "the Manager, the objects and the open context managers (shallow canonical form), so a "
+           "cache kept anywhere there cannot be merged away; a library exception raised by an "
+           "operation of the alphabet is a violation.",
+    "C05": "user-set global units as the bottom of the stack; prepared-then-entered context objects; "
+           "27 accessors (cut-off arguments, RWA energies and skeleton, transition energies, "
+           "caller-mutated arrays, first read inside a basis context, state energies with "
+           "vibrational quanta, values= route of CorrelationFunction); 48-call menu.",
+    "C06": "five analytic bath types in the bath section; ground-state energy offsets; three requests "
+           "at different temperatures on one object; requests inside units contexts; operator-form "
+           "tensors converted inside/outside the context; the zero-frequency element is allowed the "
+           "computed l'Hospital discretisation error only.",
+    "C07": "shared initial state across forms; refinement (argument and setting) against absolute "
+           "references; non-dyadic axes; expansion orders; conversion after the propagator exists; "
+           "unsorted energies with a different bath per site.",
+    "C08": "pure dephasing grid; complex Hamiltonians; observation inside contexts; histories of "
+           "set_dense_dt / calculate on one object; apply(copy=False); sub-axes not starting at t_0.",
+    "C09": "all analytic ftypes incl. legacy ones; construction units per component; list-built "
+           "composites; FT-part sums; measurement histories (measure, add_to_data, add_to_data-self); "
+           "time axes; zero-reorganisation-energy operands; one-sided / asymmetric frequency axes; "
+           "temperature bookkeeping of composites converted to correlation functions.",
+    "C10": "3-4 modes; complex shifts; fem_full; direct coupling() calls inside units contexts; "
+           "second build after changing shifts (setting histories); 12-20 levels in quick.",
+    "C11": "explicit correlation-function matrices with cross terms; coupling cut-off; histories on "
+           "one aggregate and on one calculator (re-bootstrap); dipole scale factors down to 1e-4; "
+           "common ground-state energy offsets.",
+    "C12": "calculator reuse across systems; scaled dipoles; the whole waiting-time axis with an "
+           "independent pathway census; histories of requests on the aggregate before the response "
+           "calculation (start states built / diagonalized); non-unit polarisation vectors.",
+    "C13": "window= option; second use of the same object and argument-unchanged clauses; data set "
+           "through apply_to_data / assignment; amplitudes 1, 1j, 1e-9; negative steps; axis copies; "
+           "axis mutation histories.",
+    "C14": "re-issue of the stored state; complex Hermitian contexts; nested non-commuting contexts; "
+           "aggregate ground-state energy offsets; object histories before the request; relaxation "
+           "Hamiltonians that do not commute with the aggregate Hamiltonian.",
+    "C15": "every call also inside ambient units / basis contexts; user refills of the initial-state "
+           "objects; non-equilibrium Foerster; free_hierarchy; propagation-matrix corrections; "
+           "refused calls; plain Hamiltonians without RWA; pure dephasing with persisted refinement; "
+           "reads of inputs between calls; results of EARLIER calls held by the caller must not "
+           "change; recalculate=False requests.",
+    "C16": "depths 10-14 for the index clauses; complex Hamiltonians; ground-state energy offsets; "
+           "construction inside units contexts; call histories on one propagator (free_hierarchy, "
+           "deeper then shallower requests, held results); time axes not starting at zero.",
+    "C17": "integer / tuple initial vectors; request histories on ONE propagator; corrections= option "
+           "with the rate matrix compared before/after; non-dyadic and offset parent axes; slow and "
+           "multi-scale generators; long axes; results held across later requests.",
+    "C18": "one-row / one-column / one-point shapes; complex Hermitian contexts; magnitudes 1e-10; "
+           "savedir tag histories; saving leaves the object alone; import inside contexts; file-name "
+           "reuse; wavelength units with negative / zero-crossing axis values.",
+    "C19": "falsy tags; retained views; read-order pairs; non-square (2,3) data; results derived from "
+           "get_TwoDSpectrum (devide_by / normalize2 / add_data) leave the container alone; additions "
+           "and reductions before the axes exist.",
+    "C20": "collective-protocol words over start/close/loop/allreduce with a locking communicator (a "
+           "rank that skips a collective is a violation); persistent per-rank configurations over "
+           "sequences of loops; nested regions; multi-dimensional arrays; reversed and huge ranges "
+           "(arithmetic partition check); reductions of operator form, rates with several components.",
+}
